@@ -93,6 +93,8 @@ func runC17(args []string) {
 				nm := c17Name(rng, 1+rng.Intn(24))
 				if rng.Intn(6) == 0 {
 					nm += "-buildkite-plugin" // a name that already carries the suffix is still a name
+				} else if rng.Intn(8) == 0 {
+					nm += []string{".git", ".github", ".git.x", ".GIT"}[rng.Intn(4)] // ... and so is one that ends like a repository address
 				}
 				segs = append(segs, nm)
 			}
@@ -108,6 +110,10 @@ func runC17(args []string) {
 				ss[j] = segs[j].(string)
 			}
 			sp := px[0] + strings.Join(ss, px[1])
+			trail := (pn != "none" || len(ss) >= 3) && rng.Intn(4) == 0
+			if trail {
+				sp += px[1] // a directory-style path, a URL with a trailing slash: still exactly as written
+			}
 			if len(ref) > 0 {
 				rs := make([]string, len(ref))
 				for j := range ref {
@@ -115,7 +121,7 @@ func runC17(args []string) {
 				}
 				sp += "#" + strings.Join(rs, "/")
 			}
-			add(c17Event(normalize(obj{"prefix": pn, "segs": segs, "ref": ref, "spelled": sp})))
+			add(c17Event(normalize(obj{"prefix": pn, "segs": segs, "ref": ref, "trail": trail, "spelled": sp})))
 		}
 	}
 	writeSummary(fl.str("summary", ""), obj{"events": tw.n, "rewritten": changed, "samples": samples})
